@@ -77,10 +77,13 @@ def run(ctx):
             txt = f.deep(it["args"][1])
             if not ("len(slice)" in txt and "Vec::len(self.data)" in txt and "Vec::capacity(self.data)" in txt and "Sub" in txt and "Add" in txt):
                 r.violate(key + "|charged-amount", f"Arena::append charges `{txt}`, expected slice.len() + len - capacity (the growth of the buffer)", f.loc())
+            ra = f.deep(rt["args"][1])
             if "len(slice)" not in ra:
                 r.violate(key + "|reserved-amount", f"Arena::append reserves `{ra}`, expected slice.len()", f.loc())
         else:
-            if ra != "additional":
+            cm0 = list(f.calls(r"usize::checked_mul$|checked_mul$"))
+            same_root = bool(cm0) and f.root_place(rt["args"][1]) is not None and f.root_place(cm0[0][1]["args"][0]) is not None and f.root_place(rt["args"][1])[0] == f.root_place(cm0[0][1]["args"][0])[0]
+            if ra != "additional" and not same_root:
                 r.violate(key + "|reserved-amount", f"LimitedVec::push reserves `{ra}`, expected the `additional` element count that was charged", f.loc())
             cm = list(f.calls(r"usize::checked_mul$|checked_mul$"))
             ok = len(cm) == 1 and f.describe_operand(cm[0][1]["args"][0]) == "additional" and "size_of" in f.describe_operand(cm[0][1]["args"][1])
